@@ -86,6 +86,15 @@ def make_garbage(kind, genuine):
         except Exception:
             return cand
         return GARBAGE
+    if kind == "idx3":
+        # the root CHOICE has three alternatives in two bits: index 3 is no NGAP PDU, whatever follows
+        import perdec
+        for cand in (b"\x60\x03abc", b"\x60\x00"):
+            try:
+                perdec.decode("ngapType.NGAPPDU", "valueExt,valueLB:0,valueUB:2", cand)
+            except Exception:
+                return cand
+        return GARBAGE
     if kind in ("text", "padbits"):
         # what a wrong peer sends (an HTTP error / request line), or the genuine answer with one of the padding bits of its first
         # octet set: not an aligned-PER NGAP PDU for the independent decoder; GARBAGE when that decoder accepts it
